@@ -103,3 +103,15 @@ package geom
 //@ func Geometry.Centroid
 //@   requires g.gtype == 3 && g.ptr != nil && len(deref(g.ptr, Polygon).rings) > 0 ==> NetA(deref(g.ptr, Polygon)) != 0
 //@ prop C14
+
+// ---- orientation (C17 ForceCW/CCW, C14 sign convention): a ring is clockwise iff its shoelace area is negative ----
+//@ prop C17,C14,C16,C20,C10
+//@ func Polygon.IsCW
+//@   mode real
+//@   ensures result <==> (forall k :: 0 <= k && k < len(p.rings) ==> ((k == 0) <==> RingA(p.rings[k]) < 0))
+//@   loop 0 invariant -1 <= rangeindex && rangeindex < len(p.rings) && (forall k :: 0 <= k && k <= rangeindex ==> ((k == 0) <==> RingA(p.rings[k]) < 0))
+//@ func Polygon.IsCCW
+//@   mode real
+//@   ensures result <==> (forall k :: 0 <= k && k < len(p.rings) ==> ((k == 0) <==> RingA(p.rings[k]) > 0))
+//@   loop 0 invariant -1 <= rangeindex && rangeindex < len(p.rings) && (forall k :: 0 <= k && k <= rangeindex ==> ((k == 0) <==> RingA(p.rings[k]) > 0))
+//@ prop C14
